@@ -364,6 +364,7 @@ type opDef struct {
 	leanLine func(c *Case) string            // model input line
 	resolve  func(c *Case, miss string) bool // answer an ORACLE-MISS; false if impossible
 	noModel  bool                            // no Lean counterpart: monitors only
+	agree    func(c *Case) (bool, bool)      // optional comparison: (agrees, abstained); default is string equality
 }
 
 var ops = map[string]*opDef{}
@@ -397,6 +398,7 @@ type Report struct {
 	Samples            []any          `json:"samples"`
 	WallS              float64        `json:"wall_s"`
 	Notes              []string       `json:"notes,omitempty"`
+	Abstained          int            `json:"abstained,omitempty"` // cases where the model does not claim to reproduce the implementation's error
 }
 
 func caseDisagreement(c *Case) Disagreement {
@@ -455,7 +457,15 @@ func correspond(op string, cases []*Case, rep *Report, timeout time.Duration) {
 		if nontrivial(c.GoOut) {
 			distinct[c.GoOut] = true
 		}
-		if c.GoOut != c.LeanOut {
+		if def.agree != nil {
+			ok, abst := def.agree(c)
+			if abst {
+				rep.Abstained++
+			}
+			if !ok {
+				rep.Disagreements = append(rep.Disagreements, caseDisagreement(c))
+			}
+		} else if c.GoOut != c.LeanOut {
 			rep.Disagreements = append(rep.Disagreements, caseDisagreement(c))
 		}
 	}
